@@ -156,29 +156,7 @@ def check(cx):
 
     # ---------------------------------------------------------------- R6.4
     r4 = cx.rule('R6.4', 'empty non-preconfigured channels vanish', floor=2, kind='equivalence')
-    fr = cx.fn('remove_user_from_channel')
-    CHN, NK = P('channel'), P('nick')
-    wr = cx.walk(fr, args=[STATE, CHN, NK], key='c06')
-    reffs = effects(wr, prog)
-    ch = chan(CHN)
-    dele = [(e, x) for e, x in reffs if x['op'] == 'remove' and x['place'] == CHANNELS]
-    side1 = [(e, x) for e, x in reffs if x['op'] == 'remove_user' and x['place'] == ch and x['args'][:1] == [NK]]
-    side2 = [(e, x) for e, x in reffs if x['op'] == 'remove' and x['place'] == field(user(NK), 'channels') and x['args'][:1] == [CHN]]
-    r4.instance('channel deletion condition')
-    want = And(has(CHANNELS, CHN), Atom(('empty', field(ch, 'users'))), Not(flag(field(ch, 'preconfigured'))))
-    if len(dele) != 1 or dele[0][1]['args'][:1] != [CHN] or not equivalent(dele[0][0].pc, want)[0]:
-        r4.violation('remove_user_from_channel|deletion-condition', 'a channel is not deleted exactly when it became empty and is not '
-                     'preconfigured', loc=fr)
-    elif side1 and dele[0][0].seq < side1[0][0].seq:
-        r4.violation('remove_user_from_channel|deletion-order', 'emptiness is tested before the member is removed', loc=fr)
-    r4.instance('both sides of the membership are removed')
-    if len(side1) != 1 or len(side2) != 1 or not equivalent(side1[0][0].pc, has(CHANNELS, CHN))[0] \
-            or not equivalent(side2[0][0].pc, has(USERS, NK))[0]:
-        r4.violation('remove_user_from_channel|both-sides', 'a departure does not remove both the channel\'s member entry and the user\'s '
-                     'channel entry', loc=fr)
-    for e, x in reffs:
-        if (e, x) not in dele + side1 + side2 and x['op'] != 'get_mut':
-            r4.violation('remove_user_from_channel|other-effect|%s' % x['op'], 'unexpected effect %s %s' % (x['op'], show_term(x['place'])), loc=cx.loc(e.node))
+    rule_channel_deletion(cx, r4)
 
     # ---------------------------------------------------------------- R6.5
     r5 = cx.rule('R6.5', 'teardown touches only the departing nick\'s entries', floor=10, kind='provenance')
@@ -218,3 +196,33 @@ def check(cx):
             bad = 'field %s' % names[-1]
         if bad:
             r5.violation('teardown|foreign-effect|%s' % desc, 'ending a session changes %s: %s' % (bad, desc), loc=cx.loc(e.node))
+
+
+def rule_channel_deletion(cx, rule):
+    """remove_user_from_channel removes both sides and deletes the channel exactly when it became empty and is not preconfigured
+       (shared: C06 R6.4, C16 R16.2)"""
+    prog = cx.prog
+    fr = cx.fn('remove_user_from_channel')
+    CHN, NK = P('channel'), P('nick')
+    wr = cx.walk(fr, args=[STATE, CHN, NK], key='c06')
+    reffs = effects(wr, prog)
+    ch = chan(CHN)
+    dele = [(e, x) for e, x in reffs if x['op'] == 'remove' and x['place'] == CHANNELS]
+    side1 = [(e, x) for e, x in reffs if x['op'] == 'remove_user' and x['place'] == ch and x['args'][:1] == [NK]]
+    side2 = [(e, x) for e, x in reffs if x['op'] == 'remove' and x['place'] == field(user(NK), 'channels') and x['args'][:1] == [CHN]]
+    rule.instance('channel deletion condition')
+    want = And(has(CHANNELS, CHN), Atom(('empty', field(ch, 'users'))), Not(flag(field(ch, 'preconfigured'))))
+    if len(dele) != 1 or dele[0][1]['args'][:1] != [CHN] or not equivalent(dele[0][0].pc, want)[0]:
+        rule.violation('remove_user_from_channel|deletion-condition', 'a channel is not deleted exactly when it became empty and is not '
+                     'preconfigured', loc=fr)
+    elif side1 and dele[0][0].seq < side1[0][0].seq:
+        rule.violation('remove_user_from_channel|deletion-order', 'emptiness is tested before the member is removed', loc=fr)
+    rule.instance('both sides of the membership are removed')
+    if len(side1) != 1 or len(side2) != 1 or not equivalent(side1[0][0].pc, has(CHANNELS, CHN))[0] \
+            or not equivalent(side2[0][0].pc, has(USERS, NK))[0]:
+        rule.violation('remove_user_from_channel|both-sides', 'a departure does not remove both the channel\'s member entry and the user\'s '
+                     'channel entry', loc=fr)
+    for e, x in reffs:
+        if (e, x) not in dele + side1 + side2 and x['op'] != 'get_mut':
+            rule.violation('remove_user_from_channel|other-effect|%s' % x['op'], 'unexpected effect %s %s' % (x['op'], show_term(x['place'])), loc=cx.loc(e.node))
+
